@@ -82,9 +82,10 @@ class Run:
         self.built_tables: Dict[tuple, Any] = {}
         self.audit_violations: List[tuple] = []
         self.client_parts: Dict[int, str] = {}
+        self.build_error: Optional[BaseException] = None
 
     # ------------------------------------------------------------------ materialisation
-    def make_env(self, env_name: str) -> dict:
+    def make_env(self, env_name: str, flip_async: bool = False) -> dict:
         run = self
         env: Dict[str, Any] = {}
         for fname, f in self.spec["funcs"].items():
@@ -111,7 +112,8 @@ class Run:
                 prev = getattr(run.marks, "cur", None)
                 run.marks.cur = st
                 try:
-                    d = tawazi.dag(max_concurrency=dg["mc"], is_async=dg["is_async"])(fn)
+                    is_async = dg["is_async"] != (flip_async and dname == run.spec["main"])
+                    d = tawazi.dag(max_concurrency=dg["mc"], is_async=is_async)(fn)
                 finally:
                     run.marks.cur = prev
                 run.tables[f"{env_name}:{dname}"] = run.build_table(env_name, dname, d, st["marks"])
@@ -131,6 +133,7 @@ class Run:
             return F(c, ret, args, kwargs)
 
         fn.__name__ = fn.__qualname__ = fname
+        fn.__annotations__ = {}  # generated node functions are untyped (tawazi inspects return annotations for unpack_to)
         kw: Dict[str, Any] = dict(priority=f["priority"], is_sequential=f["is_sequential"],
                                   resource=getattr(tawazi.Resource, f["resource"]), debug=f["debug"], setup=f["setup"])
         if f["tag"] is not None:
@@ -139,8 +142,8 @@ class Run:
             kw["unpack_to"] = f["unpack_to"]
         return tawazi.xn(**kw)(fn)
 
-    def build(self, env_name: str, dnames: List[str], pauses: Optional[dict] = None) -> None:
-        env = self.envs.get(env_name) or self.make_env(env_name)
+    def build(self, env_name: str, dnames: List[str], pauses: Optional[dict] = None, flip_async: bool = False) -> None:
+        env = self.envs.get(env_name) or self.make_env(env_name, flip_async)
         for dname in dnames:
             src = render_dag(self.spec, dname, (pauses or {}).get(dname))
             code = compile(src, f"<gen:{dname}>", "exec")
@@ -281,7 +284,7 @@ class Run:
         k = op["op"]
         key = (c, i, 0)
         if k == "build":
-            self.build(op.get("env", "E"), op["dags"], op.get("pauses"))
+            self.build(op.get("env", "E"), op["dags"], op.get("pauses"), flip_async=op.get("flip_async", False))
             if op.get("snapshot"):
                 for dn in op["dags"]:
                     inst = f"{op.get('env', 'E')}:{dn}"
@@ -484,9 +487,12 @@ class Run:
         if self.line_points is not None:
             seams.arm_lines(self.line_points)
         try:
-            for b in scn.get("prebuild", []):
-                self.build(b.get("env", "E"), b["dags"])
-            for c, ops in enumerate(scn["clients"]):
+            try:
+                for b in scn.get("prebuild", []):
+                    self.build(b.get("env", "E"), b["dags"], flip_async=b.get("flip_async", False))
+            except BaseException as e:  # noqa: BLE001 - a build that raises is a finding, not a harness error
+                self.build_error = e
+            for c, ops in enumerate(scn["clients"] if self.build_error is None else []):
                 p = self.sim.spawn(f"client{c}", "client", self.client_fn(c, ops))
                 self.client_parts[c] = p.name
             from . import audits
